@@ -272,4 +272,19 @@ CHECKS["C13"] = {
           "HDF5 types) carry no contract.",
   "technique": "contract-based deductive verification: AST-generated VCs over a symbolic dataset / metadata model discharged by z3; "
                "bounded native replay for whole-file behaviour"}
+CHECKS["C08"] = {
+  "text": "Proof over the real task functions (ghost file system of C10, no fault injection) that repack asks rtdc_copy for all features "
+          "and tables, and for basins / logs exactly when they are not stripped; compress for everything; condense_dataset for the scalar "
+          "features with basins, logs and tables. Proof over the HDF5 object model that rtdc_copy copies every file attribute (metadata) "
+          "with its value, every log under the prefixed name exactly when logs are included, every table with equal content and "
+          "attributes exactly when tables are included, hands exactly the requested features (all / scalar / none) to h5ds_copy and "
+          "leaves the source untouched.",
+  "note": "h5ds_copy's dataset transfer (chunk iteration, object-string to fixed-width conversion, h5o.copy), defective-feature handling, "
+          "basin definition rewriting, the completion of min/max/mean attributes (C20) and .tdms reading are outside these contracts. "
+          "The bounded stand-in runs on every check: an input with unicode logs longer than 100 bytes, table attributes, user metadata "
+          "with ':' and '=', dotted output names; compress / repack outputs compared with the input value by value (datasets, "
+          "attributes, metadata), applied again to their own output, strip options, condense's scalar features, tdms2rtdc against the "
+          ".tdms source, input file hash (labelled bounded).",
+  "technique": "contract-based deductive verification: AST-generated VCs over the HDF5 object model and the ghost file system discharged by "
+               "z3; bounded native comparison of input and output files"}
 NOT_APPLICABLE = {}
